@@ -8,6 +8,7 @@ from vlib import Case, Rng
 
 ID = "C01"
 PROPS_MODULE = "AmqModel.Props.C01"
+EXTRA_PROPS_MODULES = ["AmqModel.Props.Pass"]      # the registrations at the end of every pass of run_io_loop (Model/Pass.lean): no lost wake-up
 NONTRIVIAL_RULE = "frames of >= 2 channels on the wire and at least one short write that ends inside a frame"
 MODEL_SCOPE = "src/io_loop/mod.rs write_to_stream, process_channel_message, handle_channel_readable (FIFO drain order), serialize.rs SealableOutputBuffer (append / push / drain_written / clear), io_loop_handle.rs send; the protocol header is written by the handshake (C16 checks it is first); thread hand-off relies on A2/A3"
 ASSUMPTIONS = ["A2: each handle's queue to the I/O thread is FIFO; a handle submits whole frames (serialize.rs builds one frame per buffer: exercised by the api engine)"]
@@ -257,6 +258,10 @@ def suites(tier, seed):
         Suite("handles-submit-whole-frames", "api", lambda: [c for c in __import__("props.c02", fromlist=["x"]).sweep(tier, seed) if c.cid.startswith("s-max") or int(c.cid[1:]) % 3 == 0],
               monitor=__import__("props.c02", fromlist=["x"]).monitor, nontrivial=lambda c, il: True, canon=__import__("apigen").canon,
               rule="assumption A2 checked: whatever a channel handle puts into its queue towards the I/O thread is a whole frame (publishes with bodies of 0 ... 300 000 bytes at frame_max 4096 ... 2^32-1 through the public API; each queue entry decoded strictly) - frames of different channels can then interleave only at frame boundaries"),
+        Suite("first-writes-e2e", "hswrite", lambda: __import__("passlog").hswrite_cases(tier), monitor=__import__("passlog").hswrite_monitor, nontrivial=lambda c, il: True, compare=False, shards=4, shrink=False, timeout=200,
+              rule="real connection over the edge-triggered mock transport, which takes only the first 0..12 / 20 / ... / 300 bytes (would-block inside the protocol header, inside StartOk, TuneOk, Open; optionally 1-7 bytes per call) and becomes willing again 250 ms later: the rest is written and the connection opens"),
+        __import__("passlog").suite("loop-passes", "bp", lambda: __import__("props.c18", fromlist=["x"]).wire_cases(tier), "the wire-e2e cases"),
+        __import__("passlog").suite("loop-passes-first-writes", "hswrite", lambda: __import__("passlog").hswrite_cases(tier), "the first-writes-e2e cases"),
         Suite("wire-e2e", "bp", lambda: __import__("props.c18", fromlist=["x"]).wire_cases(tier), monitor=__import__("props.c18", fromlist=["x"]).e2e_monitor, nontrivial=lambda c, il: True, compare=False, shards=4, timeout=300,
               rule="real connection + I/O thread over the mock transport, publisher threads: 1.5 MiB and 6 MiB queued during a stall and then taken by the transport in partial writes of 256 KiB; a write call failing with EINTR after partial writes: every message on the wire once, intact, in order, whole frames (after a transport failure: a clean prefix)"),
         Suite("wire-random", "machine", lambda: gen_random(tier, seed), monitor=monitor, nontrivial=nontrivial, canon=mg.canon_nondet, candidate_ok=mg.candidate_ok,
